@@ -25,7 +25,7 @@ AllActs(S0) ==
 
 \* ---- vacuity witnesses ------------------------------------------------------------------------
 Kinds == <<"Register", "OpenInit", "ForeignInit", "Try", "Ack", "Confirm", "CloseConfirm", "SendTx", "Recv", "Timeout", "Wait", "SetAllow",
-           "Reopen", "ExecResult", "ExecError", "ClosedByTimeout", "InflightAckBlocked", "HostConfirmBlocked", "StrangerInit", "DuplicateInit">>
+           "Reopen", "ExecResult", "ExecError", "ClosedByTimeout", "InflightAckBlocked", "HostConfirmBlocked", "StrangerInit", "DuplicateInit", "DefaultVersion">>
 Idx(name) == CHOOSE i \in DOMAIN Kinds : Kinds[i] = name
 Mark(name) == IF TLCGet(Idx(name)) = 0 THEN TLCSet(Idx(name), 1) /\ PrintT(<<"WITNESS", name>>) ELSE TRUE
 
@@ -36,6 +36,7 @@ Witness(S0, a, r) ==
     /\ (a.a = "Recv" /\ r.ack = "error" => Mark("ExecError"))
     /\ (a.a = "Timeout" /\ ChanAt(r.S.A.chans, a.ca).st = "CLOSED" => Mark("ClosedByTimeout"))
     /\ (a.a = "OpenInit" /\ a.signer # a.owner => Mark("StrangerInit"))
+    /\ (a.a \in {"Register", "OpenInit"} /\ a.enc = "default" /\ S0.A.active[a.owner] # -1 => Mark("DefaultVersion"))
     /\ (a.a \in {"Register", "OpenInit"} /\ (\E n \in ChanNos(S0.A.chans) : S0.A.chans[n + 1].owner = a.owner /\ S0.A.chans[n + 1].st = "INIT")
             => Mark("DuplicateInit"))
 
